@@ -189,6 +189,8 @@ def readContent (env : Env) (cfg : Config) (st : St) (length : Nat) (encoding : 
     | some (.int _) => throw perr
     | none => do let (_, nl) ← guessLineEndings env cfg ln content enc; pure nl
   if newline.isEmpty then throw .assertion
+  -- the raw content must end with the newline (checked before any indentation is stripped)
+  if !endsWith content newline then throw perr
   let lines := splitLines content newline true
   let ind : Nat ← match indent with
     | none => pure 0
